@@ -15,7 +15,7 @@ from engine.runner import Shard
 from props.c12 import expected_code
 from props.c27 import DecoderModel
 
-MODELS = ['fmt_stub', 'HfSerialize', 'FrameFeed', 'HpackDec', 'HpackEnc']
+MODELS = ['fmt_stub', 'HfSerialize', 'FrameFeed', 'HpackDec', 'HpackEnc', 'SettingsBlob']
 BOUNDS = {
     'received SETTINGS': 'frames with 1 or 2 settings: every single known id, every pair of '
                          'known ids, unknown ids 0, 7, 9, 0xff; values 0..2^32-1 symbolic '
@@ -350,4 +350,8 @@ def shards(tier, seed):
                 out.append(Shard('update_invalid/%s/%s+%s/%s' % (
                     r, _name(good), _name(bad), 'bad-first' if bad_first else 'bad-last'),
                     h_update_invalid(client, good, bad, bad_first), expect=['refused']))
+    # the HTTP2-Settings header of an h2c upgrade takes effect like a received SETTINGS frame
+    from props import c25
+    out.append(Shard('upgrade_handover', c25.h_settings_handover(True), budget=120,
+                     expect=['upgraded']))
     return out
